@@ -128,6 +128,7 @@ func reBodyToSMT(re *syntax.Regexp) (string, bool) {
 
 // regexpSearchToSMT gives the SMT regular expression of the strings in which `expr` has a match
 // (regexp.MatchString semantics: unanchored search; ^ and $ honoured at the two ends).
+// A result starting with "!" denotes the complement of the membership in the rest.
 func regexpSearchToSMT(expr string) (string, bool) {
 	re, err := syntax.Parse(expr, syntax.Perl)
 	if err != nil {
@@ -147,6 +148,25 @@ func regexpSearchToSMT(expr string) (string, bool) {
 	}
 	if len(subs) > 0 && subs[len(subs)-1].Op == syntax.OpEndText {
 		end, subs = true, subs[:len(subs)-1]
+	}
+	if !start && !end && len(subs) == 1 && subs[0].Op == syntax.OpCharClass {
+		// "contains a character of class C"  ==  not (s in complement(C)*): far cheaper for the solver
+		var comp []string
+		next := rune(0)
+		rs := subs[0].Rune
+		for k := 0; k+1 < len(rs); k += 2 {
+			if rs[k] > next {
+				comp = append(comp, smtRange(next, rs[k]-1))
+			}
+			next = rs[k+1] + 1
+			if next > smtMaxChar {
+				break
+			}
+		}
+		if next <= smtMaxChar {
+			comp = append(comp, smtRange(next, smtMaxChar))
+		}
+		return "!(re.* " + smtUnion(comp) + ")", true
 	}
 	var parts []string
 	if !start {
@@ -208,6 +228,9 @@ func init() {
 			panic(unmodelled{"regexp not translatable to SMT: " + re.String()})
 		}
 		fr.i.m.note("regexp " + re.String() + " on symbolic input translated to SMT-LIB (characters above U+2FFFF not representable; inputs are ASCII)")
+		if strings.HasPrefix(smt, "!") {
+			return boolVal(mkNot(mkInRe(strArg(a[1]), smt[1:])))
+		}
 		return boolVal(mkInRe(strArg(a[1]), smt))
 	})
 
